@@ -18,9 +18,9 @@ from pyfront import shimmed
 
 PROP = 'C13'
 ALL = ['ber', 'der', 'per', 'uper', 'oer', 'jer', 'xer', 'gser']
-TEMPLATES = ['seq-opt', 'combo-bits-default', 'combo-components-of', 'combo-ext-implied', 'combo-import',
-             'combo-uper6', 'enum-ext', 'c13-enum-default', 'defaults-by-ref-small', 'components-of-chain']
-MORE = ['combo-ref', 'combo-default-shared', 'tag-app', 'combo-recursive', 'seq-ext-group', 'set-tags',
+TEMPLATES = ['combo-bits-default', 'combo-components-of', 'combo-ext-implied', 'combo-import',
+             'enum-ext', 'c13-enum-default', 'defaults-by-ref-small', 'components-of-chain']
+MORE = ['seq-opt', 'combo-uper6', 'combo-ref', 'combo-default-shared', 'tag-app', 'combo-recursive', 'seq-ext-group', 'set-tags',
         'combo-set-choice', 'int-named']
 
 
